@@ -142,8 +142,8 @@ def end_to_end(ctx, binary):
 
     # worlds x queries
     classes = ["tiny", "boundary", "crossface", "large", "huge"]
-    worlds = ctx.pick(["basic", "basic", "overlay", "mutable", "basic", "overlay", "mutable", "compact"],
-                      ["basic", "overlay", "mutable", "compact"])
+    worlds = ctx.pick(["basic", "overlay", "mutable", "layered", "basic", "overlay", "mutable", "compact"],
+                      ["basic", "overlay", "mutable", "layered", "compact"])
     n = ctx.pick(32, 400)
     nq = ctx.pick(32, 60)
     cases = []
@@ -200,7 +200,7 @@ def run(ctx):
              "levels 0..3 of two faces, checks the lemma for all pairs, and each covering is executed on the real "
              "TokensForCovering / RewriteSpatialQuery (token sets compared with the specification; the lemma re-evaluated "
              "on the real token sets). (b) chains of real cells at all level pairs 0..30 and seeded worlds (tiny, "
-             "cell-boundary, cross-face, large, face-sized extents; basic, overlay, mutable, compact worlds) x queries "
+             "cell-boundary, cross-face, large, face-sized extents; basic, mutable, mutable-overlay, static-overlay, compact worlds) x queries "
              "(cap, cells, point, polyline, multipolygon, intersecting-feature, also under an intersection with a tag "
              "query); every event validated by TLC (SpatialTrace.tla). distinct = distinct coverings + distinct "
              "(feature level, query level) chain pairs + distinct selective (world, query) pairs (some but not all "
